@@ -648,4 +648,7 @@ MODULES["Roots"] = dict(
     funcs=[
         dict(name="quadratic_solve", file=P_MOD, impl=RT_IMPL, fn="quadratic_solve"),
         dict(name="cubic_solve", file=P_MOD, impl=RT_IMPL, fn="cubic_solve"),
+        # laguer: MR / MT / MAXIT are compile-time constants (substituted), EPS = f64::EPSILON = reps RA, the table frac[] is
+        # the model's rfrac RA (its nine values are tied by gen/Params.v: LAGUER_FRAC)
+        dict(name="laguer", file=P_MOD, impl=RT_IMPL, fn="laguer", arrays={"frac": ("(rfrac RA)", 9)}),
     ])
